@@ -90,7 +90,7 @@ PROACTIVE = {
     'C13': [['fmt-search', '6', '{seed}'], ['c13-primnames']],
     'C08': [['c08-reach'], ['c08-compactas'], ['c08-resolve']],
     'C18': [['c18-upcast']],
-    'C16': [['c16-builders']],
+    'C16': [['c16-builders'], ['c16-subst']],
     'C10': [['c10-sanity'], ['c10-resolve'], ['c10-mixed']],
     'C11': [['c11-contains']],
     'C12': [['c12-primex', '2000']],
